@@ -706,7 +706,11 @@ class XsdElement(XsdComponent, ParticleMixin,
                 inherited.update((k, v) for k, v in obj.attrib.items() if k in self.inheritable)
             else:
                 inherited = {k: v for k, v in obj.attrib.items() if k in self.inheritable}
+            # The copy is only for scoping the inherited attributes: errors,
+            # IDs and identity tables belong to the same validation run.
+            errors, id_map, identities = context.errors, context.id_map, context.identities
             context = _copy(context)
+            context.errors, context.id_map, context.identities = errors, id_map, identities
             context.inherited = inherited
 
         # Checks the xsi:nil attribute of the instance
